@@ -93,9 +93,11 @@ def OutGood (js : Nat → JFields) (cache : List Nat) (e : Nat × GFields) : Pro
 
 /-! ### Map and Set objects (builtin_map.go:53 mapObject.export, builtin_set.go:52 setObject.export)
 
-  As coded they do NOT consult the cache on entry — `m := make(…); ctx.put(mo.val, m)` straight away — so every visit
-  of a Map / Set allocates a new Go slice.  `isMapSet id` marks such objects; for them the model never looks the id up
-  (their own export code is the only reader of their binding). -/
+  Since fix 29d16ec they start with `if v, exists := ctx.get(…); exists { return v }` like baseObject.export and
+  arrayObject.export, so a Map (entries `<key, value>`) or a Set (elements) is an ordinary node of `expVal`.
+  BEFORE the fix they did not consult the cache on entry — `m := make(…); ctx.put(mo.val, m)` straight away — and every
+  visit of a Map / Set allocated a new Go slice: `expValK` with `isMapSet id` marking such objects (for them the old code
+  never looked the id up) is kept as the regression model of that mechanism. -/
 
 def expValK (js : Nat → JFields) (isMapSet : Nat → Bool) : Nat → ECtx → JVal → ECtx × GVal
   | _, c, .prim p => (c, .prim p)
